@@ -41,7 +41,6 @@ type stepper struct {
 	// roundtrip
 	store    *memStore
 	orig     arrow.RecordBatch
-	extCfg   *vgirpc.ExternalLocationConfig
 	handle   arrow.RecordBatch
 	handleMD arrow.Metadata
 	isPtr    bool
@@ -286,7 +285,6 @@ func (s *stepper) externalize(st replay.Step) (replay.Obs, error) {
 	default:
 		return nil, fmt.Errorf("unknown cfg %q", cfgKind)
 	}
-	s.extCfg = cfg
 
 	out, outMD, err := vgirpc.MaybeExternalizeBatch(batch, arrow.Metadata{}, cfg)
 	obs := replay.Obs{}
